@@ -36,11 +36,12 @@ ADDRS = [["10.0.0.1", 50000], ["10.0.0.1", 50001], ["::1", 50000], ["fe80::1%eth
 ADDRS_WIDE = ADDRS + [["10.0.0.2", 50000], ["1", 50000], ["e80::1%eth0", 62000], ["ff02::1", 1], ["fd00::2", 65535], ["fritz.box", 0],
                       ["ritz.box", 0], ["localhost", 65535], ["", 0], ["", 1], ["::", 0], ["0.0.0.0", 0], ["255.255.255.255", 65535]]
 EMPTY = ["", 0]
-DYN_KEYS = ["registered", "rdac_step", "custom"]
+# dynamic keys incl. near-misses of built-in field names (no fuzzy / case-insensitive matching may happen)
+DYN_KEYS = ["registered", "rdac_step", "custom", "Callsign", "address_in_", "dmr-id"]
 ADDR_FIELDS = ["address_in", "address_out", "address_nat"]
-SCALAR_FIELDS = {"dmr_id": [1, 2, 2300001], "callsign": ["OK1AAA", "OK2BBB"], "serial": ["S1", "S2"], "snmp_enabled": [True, False], "nat_enabled": [True, False]}
+SCALAR_FIELDS = {"dmr_id": [0, 1, 2, 2300001, 16777215, 4294967295], "callsign": ["", "OK1AAA", "OK2BBB", "ok1aaa"], "serial": ["S1", "S2"], "snmp_enabled": [True, False], "nat_enabled": [True, False]}
 FIELDS = ADDR_FIELDS + list(SCALAR_FIELDS)
-DYN_VALUES = [True, False, 0, 7, "x", None]
+DYN_VALUES = [True, False, 0, 7, -1, "", "x", None]
 
 
 def _addr(a):
@@ -351,7 +352,7 @@ def drv_random(ctx: Ctx, sub: SubCheck):
     M = make_machine("RepeaterStorageMachine", Runner, _strategies())
 
     def work(shard, t: Tally):
-        ctx.state_machine(sub.name, M, max_examples=ctx.pick(25, 250), step_count=ctx.pick(60, 300), tally=t, shard=shard)
+        ctx.state_machine(sub.name, M, max_examples=ctx.pick(80, 400), step_count=ctx.pick(100, 300), tally=t, shard=shard)
 
     ctx.shards(work, list(range(16)))
 
